@@ -13,7 +13,8 @@ RULE = ("every labelled DAG on <=4 nodes (thorough 5, bypass and keep_only "
         "keep_only, every (starts, ends) with |starts|,|ends| <= 2 and the 4 "
         "keep-flag combinations for keep_only_between; then explicit-state "
         "search over SEQUENCES of such operations (depth 2, thorough 3) from "
-        "every DAG on <=3 (thorough 4) nodes with canonical-state dedup. "
+        "every DAG on <=3 (thorough 4) nodes with canonical-state dedup (documented state plus the identity "
+        "partition of the real sets). "
         "oracle: bypass removes exactly j and the transitive must-run-before "
         "relation on the remaining jobs equals the original closure restricted"
         " to them; keep_only* keeps exactly the reference subset with "
